@@ -233,7 +233,7 @@ def main(argv):
                 else:
                     pending.append({'engine': 'verus', 'unit': un, 'fn': f.qual, 'source': f.source, 'label': lab,
                                     'message': fl['message'], 'rendered': fl['rendered'], 'kind': failure_kind(fl['message']),
-                                    'ghost_lost': list(f.ghost_lost), 'mirrors': P.mirrors_for(un, f.qual)})
+                                    'ghost_lost': list(f.ghost_lost), 'mirrors': P.mirrors_for(un, f.qual, failure_kind(fl['message']))})
             for it in u.items:
                 extraction.append(it)
         # ---------------- Engine B ----------------
